@@ -183,7 +183,8 @@ func validateTrace(c *core.Ctx, module, cfg string, consts map[string]string, tr
 	for k, v := range extra {
 		files[k] = v
 	}
-	r, err := c.TLC(core.TLCOpts{Module: module, Cfg: cfg, Consts: consts, Files: files, Workers: 1, Timeout: 8 * time.Minute})
+	// depth-first queue: the search stops at the first complete explanation (TLCSet("exit") in the spec)
+	r, err := c.TLC(core.TLCOpts{Module: module, Cfg: cfg, Consts: consts, Files: files, Workers: 1, DFS: true, Timeout: 10 * time.Minute})
 	if err != nil {
 		return nil, err
 	}
